@@ -15,7 +15,7 @@ int main(int argc, char **argv) {
         int fd = open(log, O_WRONLY | O_APPEND | O_CREAT, 0644);
         if (fd >= 0) {
             char buf[256];
-            int n = snprintf(buf, sizeof buf, "%s\n", argv[1]);
+            int n = snprintf(buf, sizeof buf, "%s:%s\n", argv[1], argv[2]);
             if (write(fd, buf, n) < 0) return 3;
             close(fd);
         }
